@@ -260,7 +260,7 @@ fn exh(ctx: &mut Ctx, sub: &str, start: u64, count: u64) {
 
 fn worker(ctx: &mut Ctx) {
     let (cases, ndyn) = match ctx.cfg.tier {
-        Tier::Quick => (10_000u64, NDYN_QUICK),
+        Tier::Quick => (40_000u64, NDYN_QUICK),
         Tier::Thorough => (300_000u64, NDYN_THOROUGH),
     };
     let total = (1 + ndyn) * 32768;
